@@ -77,6 +77,25 @@ func runDesyncEnv(env []string, limit time.Duration, args ...string) (exit int, 
 	return 0, o.Bytes(), e.Bytes(), rerr
 }
 
+// runExeEnv is runDesyncEnv for another executable (the test binary acting as a shim in front of the real one).
+func runExeEnv(exe string, env []string, limit time.Duration, args ...string) (exit int, stdout, stderr []byte, err error) {
+	ctx, cancel := context.WithTimeout(context.Background(), limit)
+	defer cancel()
+	cmd := exec.CommandContext(ctx, exe, args...)
+	var o, e bytes.Buffer
+	cmd.Stdout, cmd.Stderr = &o, &e
+	cmd.Env = append(append(os.Environ(), "HOME=/nonexistent-verif-home"), env...)
+	cmd.WaitDelay = 5 * time.Second
+	rerr := cmd.Run()
+	if ctx.Err() != nil {
+		return -1, o.Bytes(), e.Bytes(), errProcTimeout
+	}
+	if ee, ok := rerr.(*exec.ExitError); ok {
+		return ee.ExitCode(), o.Bytes(), e.Bytes(), nil
+	}
+	return 0, o.Bytes(), e.Bytes(), rerr
+}
+
 func writeIndexFile(path string, idx desync.Index) error {
 	f, err := os.Create(path)
 	if err != nil {
@@ -692,7 +711,28 @@ func runC05Proc(c *fw.Case) {
 			c.Fault("destination-not-empty")
 		}
 	}
-	exit, _, stderr, err = runDesync(untarArgs...)
+	// fault: the process runs as root but without CAP_FSETID (a hardened container): every write(2) to a regular file
+	// then strips its set-id bits, and chmod(2) cannot set the set-gid bit on an entry of a group the process is not in
+	noFsetid := !noPerm && c.ChanceAdded(1, 4, "cli.no-cap-fsetid")
+	if noFsetid {
+		c.Fault("process-without-CAP_FSETID")
+		exe, eerr := os.Executable()
+		if eerr != nil {
+			c.HarnessError("%v", eerr)
+			return
+		}
+		exit, _, stderr, err = runExeEnv(exe, []string{"VERIF_DROPCAP_SHIM=" + desyncBin()}, 120*time.Second, untarArgs...)
+		if exit == 3 && bytes.Contains(stderr, []byte("dropcap shim:")) {
+			c.HarnessError("%s", tailBytes(stderr, 200))
+			return
+		}
+	} else {
+		exit, _, stderr, err = runDesync(untarArgs...)
+	}
+	if errors.Is(err, errProcTimeout) {
+		c.Probe("procsim-timeout-case-dropped")
+		return
+	}
 	if err != nil {
 		c.HarnessError("%v", err)
 		return
@@ -752,6 +792,29 @@ func runC05Proc(c *fw.Case) {
 				return
 			}
 		}
+	}
+	if noFsetid {
+		// what the kernel does to such a process, whatever order desync works in: chmod(2) drops the set-gid bit of
+		// an entry whose group the caller is not a member of
+		in := map[uint32]bool{uint32(os.Getegid()): true}
+		if gs, gerr := os.Getgroups(); gerr == nil {
+			for _, g := range gs {
+				in[uint32(g)] = true
+			}
+		}
+		adj := map[string]*treeEntry{}
+		for p, e := range want {
+			ce := *e
+			gid := ce.GID
+			if noOwner {
+				gid = 0
+			}
+			if ce.Mode&02000 != 0 && !in[gid] {
+				ce.Mode &^= 02000
+			}
+			adj[p] = &ce
+		}
+		want = adj
 	}
 	if cat, d := diffTrees(want, got, ignore); cat != "" {
 		if cut {
